@@ -8,6 +8,7 @@ import (
 
 	"github.com/cockroachdb/pebble/verifharness/evid"
 	"github.com/cockroachdb/pebble/vfs"
+	"github.com/cockroachdb/pebble/vfs/errorfs"
 )
 
 // InBubble is set by checks that run inside a process-wide synctest bubble
@@ -28,8 +29,18 @@ type Result struct {
 // perform extra checks.
 func RunPlan(p Plan, finish func(r *Runner) error) (res Result, err error) {
 	body := func() {
-		fs := vfs.NewMem()
+		var fs vfs.FS = vfs.NewMem()
+		var cr *crasher
+		if p.Crash != nil {
+			mem := vfs.NewCrashableMem()
+			cr = &crasher{cp: p.Crash, mem: mem}
+			fs = errorfs.Wrap(mem, errorfs.InjectorFunc(cr.inject))
+		}
 		r := NewRunner(&p, fs)
+		if cr != nil {
+			cr.r = r
+			r.crash = cr
+		}
 		if InBubble {
 			r.Wait = synctest.Wait
 		} else {
@@ -50,6 +61,23 @@ func RunPlan(p Plan, finish func(r *Runner) error) (res Result, err error) {
 		for i := range p.Steps {
 			if err = r.Step(i); err != nil {
 				return
+			}
+			if cr != nil {
+				if err = cr.checkImages(); err != nil {
+					return
+				}
+			}
+		}
+		if cr != nil {
+			// a final image of the quiescent store, then stop taking images.
+			r.Wait()
+			cr.snap(cr.n.Load(), "end of plan", "end")
+			cr.off.Store(true)
+			if err = cr.checkImages(); err != nil {
+				return
+			}
+			for k, v := range cr.classes {
+				r.C["crash-class-"+k] += v
 			}
 		}
 		if err = r.FinalCheck(); err != nil {
